@@ -41,8 +41,6 @@ SHIPPED = [
     ('CORONET_CONUS', EX / 'CORONET_CONUS_Topology.json', EX / 'eqpt_config.json', (), 'thorough'),
     ('CORONET_Global', EX / 'CORONET_Global_Topology.json', EX / 'eqpt_config.json', (), 'thorough'),
     ('td_CORONET_expected', TD / 'CORONET_Global_Topology_expected.json', TD / 'eqpt_config.json', (), 'thorough'),
-    ('td_CORONET_auto', TD / 'CORONET_Global_Topology_auto_design_expected.json', TD / 'eqpt_config.json', (),
-     'thorough'),
 ]
 
 
@@ -130,7 +128,7 @@ class DesignRecorder(contextlib.AbstractContextManager):
             out = orig_presel(uid, _amplifiers, prev_node, next_node, power_mode, prev_voa, prev_dp, pref_total_db,
                               network, equipment, restrictions, _design_bands, deviation_db, tilt_target)
             rec.preselect_calls.append(dict(uid=uid, restrictions=list(restrictions), bands=copy.deepcopy(_design_bands),
-                                            result=list(out), amps=_amplifiers))
+                                            result=list(out), amps=_amplifiers, prev=prev_node, next=next_node))
             return out
 
         orig_set_one, orig_select, orig_presel = N.set_one_amplifier, N.select_edfa, N.preselect_multiband_amps
@@ -146,12 +144,37 @@ class DesignRecorder(contextlib.AbstractContextManager):
         return False
 
 
-def design(topo, eqpt, extra=(), power_mode=None, span=None, si=None, json_data=None):
+def stripped_topology(path):
+    """the shipped topology with every amplifier turned into a placeholder (no type_variety, no operational settings):
+    auto-design has to select and set every amplifier itself"""
+    from gnpy.tools.json_io import load_gnpy_json, load_json
+    try:
+        data = load_gnpy_json(Path(path))
+    except Exception:                                                    # noqa
+        data = load_json(Path(path))
+    data = copy.deepcopy(data)
+    for el in data['elements']:
+        if el.get('type') == 'Edfa':
+            el.pop('type_variety', None)
+            el.pop('operational', None)
+    return data
+
+
+class LoadError(Exception):
+    """the shipped files could not be loaded (not a design outcome)"""
+
+
+def design(topo, eqpt, extra=(), power_mode=None, span=None, si=None, json_data=None, strip=False):
     """load + real designed_network under the recorders -> (network, equipment, reference channel, recorder)"""
     from gnpy.tools.json_io import network_from_json
     from gnpy.tools.worker_utils import designed_network
-    eq = load_equipment(eqpt, extra, power_mode, span, si) if not isinstance(eqpt, dict) else eqpt
-    net = network_from_json(copy.deepcopy(json_data), eq) if json_data is not None else load_topology(topo, eq)
+    try:
+        eq = load_equipment(eqpt, extra, power_mode, span, si) if not isinstance(eqpt, dict) else eqpt
+        if strip:
+            json_data = stripped_topology(topo)
+        net = network_from_json(copy.deepcopy(json_data), eq) if json_data is not None else load_topology(topo, eq)
+    except Exception as e:                                               # noqa
+        raise LoadError(f'{type(e).__name__}: {e}') from e
     with DesignRecorder() as rec:
         net, _req, ref = designed_network(eq, net)
     return net, eq, ref, rec
@@ -366,7 +389,7 @@ def w2dbm(w):
 
 
 # --------------------------------------------------------------------------------------------- synthetic two-ROADM line
-def line_topology(spans, roadm_a=None, roadm_b=None, amps=None, fiber_type='SSMF', amp_type='Edfa'):
+def line_topology(spans, roadm_a=None, roadm_b=None, amps=None, fiber_type='SSMF', amp_type='Edfa', reverse=True):
     """ROADM A -> [amp 0] -> span 1 -> [amp 1] -> ... -> span n -> [amp n] -> ROADM B (and a plain reverse fibre).
 
     spans: list of spans, each a list of segments dict(kind='fiber', length_km, loss_coef, con_in, con_out, att_in,
@@ -403,6 +426,8 @@ def line_topology(spans, roadm_a=None, roadm_b=None, amps=None, fiber_type='SSMF
             prev = uid
         put_amp(k)
     cx.append((prev, 'roadm B'))
+    if not reverse:
+        return {'elements': els, 'connections': [{'from_node': a, 'to_node': b} for a, b in cx]}
     els.append({'uid': 'fiber back', 'type': 'Fiber', 'type_variety': fiber_type,
                 'params': {'length': 80, 'length_units': 'km', 'loss_coef': 0.2, 'con_in': None, 'con_out': None}})
     cx += [('roadm B', 'fiber back'), ('fiber back', 'roadm A')]
@@ -524,6 +549,131 @@ def step_in_domain(rng_step_db):
     return abs(rng_step_db * 10 - round(rng_step_db * 10)) < 1e-9
 
 
+# -------------------------------------------------------------------------------- traces for Trace_AmpSelection
+def mhz(f):
+    return int(round(float(f) / 1e6))
+
+
+def model_nf_udb(eq, name, gain, cache):
+    """the implementation's own noise figure of library model `name` at `gain` (None when it has none);
+    `cache` lives as long as the equipment dict it was computed for"""
+    from gnpy.core.network import edfa_nf
+    key = (name, round(gain, 9))
+    if key not in cache:
+        try:
+            v = float(edfa_nf(gain, eq['Edfa'][name]))
+            cache[key] = None if math.isnan(v) else udb(v)
+        except Exception:                                              # noqa
+            cache[key] = None
+    return cache[key]
+
+
+def adjacent_roadm_lists(prev, nxt):
+    """(booster list of a ROADM right before, preamp list of a ROADM right after) as read from the elements"""
+    from gnpy.core import elements as E
+    b = list(prev.restrictions.get('booster_variety_list') or []) if isinstance(prev, E.Roadm) else []
+    p = list(nxt.restrictions.get('preamp_variety_list') or []) if isinstance(nxt, E.Roadm) else []
+    return b, p
+
+
+def library_models(eq, gain, own, rdm, cache=None):
+    """every single-band model of the library as an integer record; ids are positions in the returned name list"""
+    cache = {} if cache is None else cache
+    names = [n for n, a in eq['Edfa'].items() if a.type_def != 'multi_band']
+    lib = []
+    for k, n in enumerate(names):
+        a = eq['Edfa'][n]
+        nf = model_nf_udb(eq, n, gain, cache) if gain is not None else None
+        lib.append(dict(id=k, gmin=udb(a.gain_min), flat=udb(a.gain_flatmax), pmax=udb(a.p_max),
+                        nf=0 if nf is None else nf, nfok=0 if nf is None else 1, raman=1 if a.raman else 0,
+                        fmin=mhz(a.f_min), fmax=mhz(a.f_max), own=1 if n in own else 0, rdm=1 if n in rdm else 0,
+                        alw=1 if a.allowed_for_design else 0))
+    return names, lib
+
+
+def selection_context(eq, node, prev, nxt, band, gain, power, ext):
+    from gnpy.core import elements as E
+    own = list(node.variety_list) if isinstance(getattr(node, 'variety_list', None), list) else []
+    bl, pl = adjacent_roadm_lists(prev, nxt)
+    rdm = bl or pl
+    jp = 0 if (bl and pl and set(bl) != set(pl)) else 1
+    prev_fiber = isinstance(prev, E.Fiber)
+    import numpy as np
+    coef = float(np.max(prev.params.loss_coef)) * 1e3 if prev_fiber else 0.0           # dB/km
+    c = dict(g=udb(gain), p=udb(power), ext=udb(ext), hasOwn=1 if own else 0, hasRdm=1 if rdm else 0,
+             bfmin=mhz(band['f_min']), bfmax=mhz(band['f_max']), prevFiber=1 if prev_fiber else 0,
+             lossCoef=udb(coef), ramanLimit=udb(eq['Span']['default'].max_fiber_lineic_loss_for_raman))
+    return c, own, rdm, jp
+
+
+EMPTY_C = dict(g=0, p=0, ext=0, hasOwn=0, hasRdm=0, bfmin=0, bfmax=0, prevFiber=0, lossCoef=0, ramanLimit=0)
+
+
+def selection_traces(net, eq, rec, name):
+    """one trace per select_edfa call of the design (kind 0 / 1) and one per auto-designed multiband amplifier (2)"""
+    from gnpy.core import elements as E
+    band_of, member = {}, {}
+    for ingress, chain, egress in walk_oms(net):
+        bands = design_bands_of(ingress, chain[0].uid)
+        for el in chain:
+            if isinstance(el, E.Edfa) and bands:
+                band_of[id(el)] = bands[0]
+            elif isinstance(el, E.Multiband_amplifier):
+                for b in bands:
+                    a = el.amplifiers.get(band_name(b))
+                    if a is not None:
+                        band_of[id(a)] = b
+                        member[id(a)] = el
+    traces, ctx = [], []
+    nf_cache = {}
+    for n, s in enumerate(rec.select_calls):
+        r = s['ctx']
+        if r is None or id(r['node']) not in band_of:
+            continue
+        node, band = r['node'], band_of[id(r['node'])]
+        parent = member.get(id(node))
+        c, own, rdm, jp = selection_context(eq, parent or node, r['prev'], r['next'], band, s['gain_target'],
+                                            s['power_target'], s['ext'])
+        names, lib = library_models(eq, s['gain_target'], own, rdm, nf_cache)
+        refused = 1 if s['exc'] else 0
+        if not refused and s['chosen'] not in names:
+            continue
+        tname = f'{name}|sel{n}|{s["uid"]}'
+        traces.append(dict(name=tname, kind=1 if parent is not None else 0, jp=jp, c=c, lib=lib,
+                           chosen=names.index(s['chosen']) if not refused else 0, refused=refused,
+                           hasList=0, groups=[], members=[]))
+        ctx.append(dict(name=tname, uid=s['uid'], gain_target=round(s['gain_target'], 6),
+                        power_target=round(s['power_target'], 6), candidates_given=s['candidates'], chosen=s['chosen'],
+                        own_list=own, roadm_list=rdm, models=names, raman_allowed=s['raman_allowed'],
+                        prev=type(r['prev']).__name__, next=type(r['next']).__name__))
+    for n, p in enumerate(rec.preselect_calls):
+        amps = p['amps']
+        first = next(iter(amps.values()), None)
+        parent = member.get(id(first)) if first is not None else None
+        if parent is None:
+            continue
+        own = list(parent.variety_list) if isinstance(getattr(parent, 'variety_list', None), list) else []
+        bl, pl = adjacent_roadm_lists(p['prev'], p['next'])
+        listed = own or bl or pl
+        names, lib = library_models(eq, None, [], [])
+        groups = [dict(alw=1 if a.allowed_for_design else 0, listed=1 if g in listed else 0,
+                       members=[names.index(m) for m in a.multi_band if m in names])
+                  for g, a in eq['Edfa'].items() if a.type_def == 'multi_band']
+        members = []
+        for bn, a in amps.items():
+            v = a.params.type_variety
+            b = p['bands'].get(bn)
+            if v in names and b:
+                members.append(dict(id=names.index(v), fmin=mhz(a.params.f_min), fmax=mhz(a.params.f_max),
+                                    bfmin=mhz(b['f_min']), bfmax=mhz(b['f_max'])))
+        tname = f'{name}|mb{n}|{p["uid"]}'
+        traces.append(dict(name=tname, kind=2, jp=1, c=EMPTY_C, lib=[], chosen=0, refused=0,
+                           hasList=1 if listed else 0, groups=groups, members=members))
+        ctx.append(dict(name=tname, uid=p['uid'], chosen={bn: a.params.type_variety for bn, a in amps.items()},
+                        multiband_type=parent.params.type_variety, listed=listed))
+    return traces, ctx
+
+
 def fmt_db(x):
     return None if x is None else round(float(x), 6)
 
@@ -532,8 +682,8 @@ def ndjson(traces):
     return '\n'.join(json.dumps(t, separators=(',', ':')) for t in traces) + '\n'
 
 
-__all__ = ['SHIPPED', 'load_equipment', 'load_topology', 'DesignRecorder', 'design', 'walk_oms', 'oms_profile',
+__all__ = ['SHIPPED', 'LoadError', 'load_equipment', 'load_topology', 'DesignRecorder', 'design', 'walk_oms', 'oms_profile',
            'design_bands_of', 'propagate_oms', 'design_load', 'line_topology', 'udb', 'INF', 'NONE', 'w2dbm',
            'roadm_ref_target_dbm', 'band_name', 'nch_of', 'ndjson', 'NXT_ROADM', 'NXT_SPAN', 'NXT_AMP', 'NXT_OTHER',
            'oms_traces', 'step_in_domain', 'passive_loss', 'amp_members', 'synthetic_equipment', 'design_json',
-           'forward_oms']
+           'forward_oms', 'selection_traces', 'stripped_topology', 'library_models', 'selection_context', 'EMPTY_C', 'mhz']
